@@ -1,4 +1,5 @@
 import NavisModel.Model.Heal
+import NavisModel.Model.HealCheck
 import NavisModel.Drv.Forest
 /-!
 Line protocol for C11 (tables in the forest wire format `id:parent:x:y:z[:L]`, rows blank-separated).
@@ -12,6 +13,14 @@ Line protocol for C11 (tables in the forest wire format `id:parent:x:y:z[:L]`, r
 * `c11.stitch <F|L> <NONE|ALL|LEAFS|L=…> <maxd2|inf> | <skel> ;; <skel> …` with
   `<skel> = <table> # cid:node,… # tag:node+node,…` →
   `mix=<k>|nodes=<id:parent:x:y:z …>|conns=cid:node,…|tags=tag:n+n,…|added=…`
+  (master `S=<0/1 per skeleton>`: `'SOMA'` with the given has-soma flags)
+* `c11.healmin <method> <maxd2|inf> <minsize|-> <mask|*> | <table before> | <table after>` →
+  `<healMinOKB> <all new edges allowed> <length multiset = model's>` (`healMinOKB` on the implementation's output)
+* `c11.healokp <maxd2|inf> | <table before> | <table after>` → `1`/`0` (`healOKPB`)
+* `c11.stitchok <mIx> <fused 0|1> <maxd2|inf> | <out skel> ;; <in skel> ;; <in skel> …` →
+  `<stitchOKB> <by position> <by coordinates> <ids unique> <maps ok> <rows ok> <conns ok> <tags ok>`
+  (the last four for the id maps read off by position, else by coordinates)
+* `c11.meshcat <nV>:a-b-c,a-b-c ; <nV>:…` → `a-b-c,…` (`concatFaces`)
 -/
 namespace Navis.Drv.C11
 open Navis.Forest Navis.Heal Navis.Proto Navis.Drv.Forest
@@ -79,6 +88,36 @@ def showConns (l : List (Int × Int)) : String :=
 def showRows (t : Table) : String :=
   " ".intercalate (t.map fun n => s!"{n.id}:{n.parent}:{n.x}:{n.y}:{n.z}")
 
+def parseMaster (ms : String) (l : List Skel) : Nat :=
+  if ms == "F" then masterIxS .first l []
+  else if ms == "L" then masterIxS .largest l []
+  else match ms.splitOn "=" with
+    | ["S", bits] => masterIxS .soma l (bits.toList.map (· == '1'))
+    | _ => masterIxS .largest l []
+
+def parseFace (s : String) : Option (Nat × Nat × Nat) :=
+  match (trim s).splitOn "-" with
+  | [a, b, c] => do pure (← a.toNat?, ← b.toNat?, ← c.toNat?)
+  | _ => none
+
+def parseMesh (s : String) : Option (Nat × List (Nat × Nat × Nat)) :=
+  match (trim s).splitOn ":" with
+  | [n, fs] => do
+    let n ← (trim n).toNat?
+    let fs ← (strList fs).mapM parseFace
+    pure (n, fs)
+  | _ => none
+
+/-- the conjuncts of `stitchOKWith`, for the diagnostics line -/
+def stitchDiag (l : List Skel) (maps : List (List (Int × Int))) (mIx : Nat) (out : Skel) (fused : Bool)
+    (maxD2 : Option Nat) : List Bool :=
+  let r := remapAll l maps
+  [decide ((ids out.nodes).Nodup), mapsOKB mIx 0 l maps,
+   (if fused then healOKPB (r.flatMap (·.nodes)) out.nodes maxD2
+    else (out.nodes.map nkey).isPerm ((r.flatMap (·.nodes)).map nkey)),
+   out.conns.isPerm (r.flatMap (·.conns)),
+   (tagPairs out.tags).isPerm (tagPairs (r.flatMap (·.tags)))]
+
 def run (cmd rest : String) : Option String :=
   match cmd with
   | "heal" => do
@@ -90,7 +129,8 @@ def run (cmd rest : String) : Option String :=
                         mask := ← parseMask mk }
       let added := healAdded t o
       let res := if dr == "1" then healDrop t o else heal t o
-      pure s!"added={showAdded added}|topo={showTopo res}|quot={showQuot (quotientEdges t o)}|roots={(roots res).length}"
+      pure (s!"added={showAdded added}|topo={showTopo res}|quot={showQuot (quotientEdges t o)}|roots={(roots res).length}" ++
+        s!"|quotkd={showQuot (quotientEdgesKD t o)}")
     | _ => none
   | "healok" =>
     match rest.splitOn "|" with
@@ -124,8 +164,7 @@ def run (cmd rest : String) : Option String :=
     let l ← (sk.splitOn ";;").mapM parseSkel
     match words a with
     | [ms, m, md] => do
-      let master := if ms == "F" then Master.first else Master.largest
-      let mIx := masterIx master l
+      let mIx := parseMaster ms l
       let maxD2 ← parseOptNat md
       let c := combine mIx l
       let (nodes, added) ←
@@ -136,6 +175,44 @@ def run (cmd rest : String) : Option String :=
       pure (s!"mix={mIx}|nodes={showRows nodes}|conns={showConns c.conns}|tags={showTags c.tags}" ++
         s!"|added={showAdded added}")
     | _ => none
+  | "healmin" =>
+    match rest.splitOn "|" with
+    | [a, tb, ub] => do
+      let t ← parseTable tb
+      let u ← parseTable ub
+      match words a with
+      | [m, md, ms, mk] => do
+        let o : Opts := { method := ← parseMethod m, maxD2 := ← parseOptNat md, minSize := ← parseOptNat ms,
+                          mask := ← parseMask mk }
+        pure s!"{b2s (healMinOKB t u o)} {b2s ((newEdges t u).all (allowedB t o))} {b2s (((newCE t u).map (·.d2)).isPerm ((healAdded t o).map (·.d2)))}"
+      | _ => none
+    | _ => none
+  | "healokp" =>
+    match rest.splitOn "|" with
+    | [a, tb, ub] => do
+      let t ← parseTable tb
+      let u ← parseTable ub
+      let m ← parseOptNat (trim a)
+      pure (b2s (healOKPB t u m))
+    | _ => none
+  | "stitchok" => do
+    let (a, sk) ← split2 rest
+    let all ← (sk.splitOn ";;").mapM parseSkel
+    match all, words a with
+    | out :: l, [mi, fu, md] => do
+      let mIx ← mi.toNat?
+      let fused := fu == "1"
+      let maxD2 ← parseOptNat md
+      let mp := mapsByPos l out.nodes
+      let mc := mapsByCoord l out.nodes
+      let okp := stitchOKWith l mp mIx out fused maxD2
+      let okc := stitchOKWith l mc mIx out fused maxD2
+      let d := stitchDiag l (if okp || !okc then mp else mc) mIx out fused maxD2
+      pure (" ".intercalate ([stitchOKB l mIx out fused maxD2, okp, okc] ++ d |>.map b2s))
+    | _, _ => none
+  | "meshcat" => do
+    let ms ← (rest.splitOn ";").mapM parseMesh
+    pure (",".intercalate ((concatFaces 0 ms).map fun f => s!"{f.1}-{f.2.1}-{f.2.2}"))
   | _ => none
 
 end Navis.Drv.C11
